@@ -173,6 +173,8 @@ class SelectorWorld:
                 return getattr(np, v.get("dtype", "int64"))(v["$npint"])
             if "$npfloat" in v:
                 return getattr(np, v.get("dtype", "float64"))(v["$npfloat"])
+            if "$rs" in v:
+                return np.random.RandomState(int(v["$rs"]))  # a generator instance as random_state
             if "$prefix_of" in v:
                 src = self.objs.get(v["$prefix_of"])
                 try:
@@ -1029,6 +1031,9 @@ class SelectorWorld:
     def twin_params(self, m):
         src = self.meta[m["twin_from"]] if m.get("twin_from") else m
         p = dict(src["resolved"])
+        for k, v in src["params"].items():
+            if isinstance(v, dict) and "$rs" in v:
+                p[k] = np.random.RandomState(int(v["$rs"]))  # the twin gets a fresh, equal generator
         if src is not m:
             for k in ("n_to_select", "score_threshold", "score_threshold_type"):
                 if k in m["resolved"]:
